@@ -903,6 +903,11 @@ package http2
 //@ loop 0: invariant place: dynplace(sc.dec)
 //@ loop 0: invariant ptrs: hf != nil && strm != nil && sc != nil && fr != nil && req != nil && strm.ctx != nil
 //@ loop 0: invariant cnt: fieldsProcessed >= 0
+//@ # every field that comes out of the decoder, pseudo-header fields included, is charged name + value + 32 (RFC 7540 6.5.2)
+//@ # before anything else is done with it: the limit is on the list the handler gets, not on part of it
+//@ ghost sum = 0
+//@ ghost@call:(*HeaderField).KeyBytes#1 sum = sum + len(arg0.key) + len(arg0.value) + 32
+//@ loop 0: invariant acct: strm.headerListSize == old(strm.headerListSize) + sum
 //@ loop 0: invariant lim: sc.maxHeaderList > 0 && old(strm.headerListSize) <= sc.maxHeaderList ==> strm.headerListSize <= sc.maxHeaderList
 //@ # ---- accepted fields are well-formed (RFC 7540 8.1.2): checked where each kind of field is handed to fasthttp ----
 //@ assert@call:(*RequestHeader).SetMethodBytes#1 method: lower(k) && k == ":method" && !strm.regularSeen
